@@ -5,7 +5,7 @@ cd "$(dirname "$0")/.."
 WT=/tmp/confirm_wt_$$
 git -C /repo worktree add -q $WT HEAD || exit 1
 trap 'git -C /repo worktree remove --force $WT; git -C /repo worktree prune' EXIT
-ids=${@:-$(ls seeded)}
+ids=${@:-$(ls seeded | { [ -n "$CONFIRM_REVERSE" ] && sort -r || cat; })}
 for id in $ids; do
   d=seeded/$id
   [ -f $d/patch.diff ] || continue
